@@ -233,7 +233,9 @@ def run_cases(draw):
             "width_u": draw(st.floats(0.01, 0.06)), "logamp": [draw(st.one_of(st.floats(-3.0, 0.0), st.floats(-14.0, -3.0))) for _ in range(nm - 1)],
             "kernel": draw(st.sampled_from(["tpcn", "rwm"])), "cluster_every": draw(st.sampled_from([1, 2, 3, 5])),
             "n_max_clusters": draw(st.sampled_from([None, None, 1, 2, 4])), "normalize": draw(st.booleans()),
-            "thr": draw(st.sampled_from([0.3, 1.0, 3.0])), "N": draw(st.sampled_from([32, 48])), "resume": draw(st.booleans()),
+            "thr": draw(st.sampled_from([0.3, 1.0, 3.0])), "N": draw(st.sampled_from([32, 48, 33])), "resume": draw(st.booleans()),
+            "resample": draw(st.sampled_from(["mult", "syst"])), "ess_ratio": draw(st.sampled_from([2.0, 2.0, 1.0, 0.5, 3.5])),
+            "vv": draw(st.sampled_from([None, None, 0.3, 2.0])), "boundary": draw(st.sampled_from(["none", "none", "periodic", "reflective"])),
             "seed": draw(st.integers(0, 2**31 - 2))}
 
 
@@ -248,7 +250,10 @@ def make_target(case):
 def exec_run(case):
     t = make_target(case)
     cfg = dict(sample=case["kernel"], clustering=True, cluster_every=case["cluster_every"], n_max_clusters=case["n_max_clusters"],
-               normalize=case["normalize"], split_threshold=case["thr"], n_particles=case["N"])
+               normalize=case["normalize"], split_threshold=case["thr"], n_particles=case["N"], resample=case.get("resample", "mult"),
+               ess_ratio=case.get("ess_ratio", 2.0), volume_variation=case.get("vv"))
+    if case.get("boundary", "none") != "none":
+        cfg[case["boundary"]] = [case["seed"] % case["d"]]
     stats = {"calls": 0, "k2": 0, "nonrefit": 0, "prov": 0}
 
     def attach(s):
